@@ -5,6 +5,7 @@ mod c02;
 mod c12;
 mod c13;
 mod ledger;
+mod shimconf;
 
 fn main() {
     std::panic::set_hook(Box::new(|_| {}));
@@ -29,6 +30,7 @@ fn main() {
         "c13_history" => c02::run(&args, "C13"),
         "c12_watcher" => c12::run(&args),
         "c13_types" => c13::run(&args),
+        "shimconf" => shimconf::run(&args),
         s => {
             eprintln!("unknown subcheck {s}");
             std::process::exit(2)
